@@ -10,6 +10,9 @@ package stat
 
 // Representation invariant. In real arithmetic the Kahan compensation term is always 0.
 //@ pred SSInv(s *SummaryStatistics) := finite(s.count) && finite(s.sum) && finite(s.simpleSum) && same(s.sumCompensation, xf(0.0)) && !isnan(s.min) && !isnan(s.max)
+// The same with an arbitrary finite compensation term: what Reweight/Rescale are specified over, so that their
+// treatment of every field (the compensation term included) is pinned down although it is 0 in real arithmetic.
+//@ pred SSInvC(s *SummaryStatistics) := finite(s.count) && finite(s.sum) && finite(s.simpleSum) && finite(s.sumCompensation) && !isnan(s.min) && !isnan(s.max)
 //@ pred SSEmptyState(s *SummaryStatistics) := same(s.count, xf(0.0)) && same(s.sum, xf(0.0)) && same(s.sumCompensation, xf(0.0)) && same(s.simpleSum, xf(0.0)) && same(s.min, pinf()) && same(s.max, ninf())
 //@ pred SSSame(a *SummaryStatistics, b *SummaryStatistics) := same(a.count, b.count) && same(a.sum, b.sum) && same(a.sumCompensation, b.sumCompensation) && same(a.simpleSum, b.simpleSum) && same(a.min, b.min) && same(a.max, b.max)
 
@@ -83,8 +86,9 @@ package stat
 
 //@ func SummaryStatistics.Reweight
 //@   serves C10 C16
-//@   requires SSInv(s) && finite(factor)
-//@   ensures SSInv(s)
+//@   requires SSInvC(s) && finite(factor)
+//@   ensures SSInvC(s) && (old(SSInv(s)) ==> SSInv(s))
+//@   ensures comp: same(s.sumCompensation, old(s.sumCompensation) * factor)
 //@   ensures same(s.count, old(s.count) * factor) && same(s.sum, old(s.sum) * factor) && same(s.simpleSum, old(s.simpleSum) * factor)
 //@   ensures minmax: factor != 0.0 ==> same(s.min, old(s.min)) && same(s.max, old(s.max))
 //@   ensures zero: factor == 0.0 ==> same(s.min, pinf()) && same(s.max, ninf())
@@ -92,8 +96,9 @@ package stat
 
 //@ func SummaryStatistics.Rescale
 //@   serves C10 C17
-//@   requires SSInv(s) && finite(factor)
-//@   ensures SSInv(s)
+//@   requires SSInvC(s) && finite(factor)
+//@   ensures SSInvC(s) && (old(SSInv(s)) ==> SSInv(s))
+//@   ensures comp: same(s.sumCompensation, old(s.sumCompensation) * factor)
 //@   ensures same(s.count, old(s.count)) && same(s.sum, old(s.sum) * factor) && same(s.simpleSum, old(s.simpleSum) * factor)
 //@   ensures pos: factor > 0.0 ==> same(s.min, old(s.min) * factor) && same(s.max, old(s.max) * factor)
 //@   ensures neg: factor < 0.0 ==> same(s.min, old(s.max) * factor) && same(s.max, old(s.min) * factor)
